@@ -23,7 +23,7 @@ ONE = {
     'C15c': 'break_patches returns early when the current object has no patches: no frames for its children, a grandchild closes its ancestor\'s frame (3-level chains)',
     'C20c': '_run_frontend catches only ConnectionClosedError and sets the start-up event on two paths instead of in a finally: a refused control connection hangs the constructor',
     'C02c': 'ProcessWorker._run reports type(e)(str(e)) instead of e: the error keeps its type but loses its arguments (process kind only)',
-    'C11c': '(see notes.md)',
+    'C11c': '_recv_exactly replaced by one recv(size, MSG_WAITALL) (same slip as C01b, found independently for C11): a body cut short by a disconnect reaches loads and kills the server',
     'C19b': 'active_children() prunes in two critical sections: a registration in between is lost',
 }
 for d in sorted(glob.glob('/verif/seeded/*/')):
